@@ -229,6 +229,13 @@ def cases(seed, tier):
                     grp = wire.frame(bytes([wire.MSG_GEX_GROUP]) + wire.mpint(pv) + wire.mpint(gv))
                     yield {'arch': arch, 'faults': [{'conn': conn, 'msg': midx, 'kind': 'replace', 'hex': grp.hex(), 'field': 'group_values', 'mut': 'p=%d g=%d' % (pv if pv < 1 << 20 else pv.bit_length(), gv if gv < 1 << 20 else gv.bit_length())}],
                            'opts': ['-n'], 'timeout': 2, 'net': {'rtt_us': 200, 'seg': {'mode': 'msg'}}, 'pseed': 1}
+            # a well-framed group whose modulus takes a megabyte: whatever the tool does with the field before it refuses the size is its
+            # own computation, which no time-out covers (20 s of processor time without a simulated call is the outcome REAL_TIME_EXCEEDED)
+            if (conn, midx) == picked[0]:
+                for nbytes in ((1 << 20),) if tier != 'thorough' else ((1 << 18), (1 << 20)):
+                    grp = wire.frame(bytes([wire.MSG_GEX_GROUP]) + wire.mpint((1 << (8 * nbytes - 2)) + 1) + wire.mpint(2))
+                    yield {'arch': arch, 'stress': True, 'faults': [{'conn': conn, 'msg': midx, 'kind': 'replace', 'hex': grp.hex(), 'field': 'group_values', 'mut': 'p of %d bytes' % nbytes}],
+                           'opts': ['-n'], 'timeout': 2, 'net': {'rtt_us': 200, 'seg': {'mode': 'msg'}}, 'pseed': 1}
     # identification lines built to stress whatever parses them (long runs of one character class, nested repetition): parsing
     # time is the tool's own, no timeout covers it
     stress = ['SSH-2.0-FooSSH_1.0 ' + 'A' * 64, 'SSH-2.0-FooSSH_1.0 ' + 'A' * 40 + ' tail', 'SSH-2.0-' + 'a' * 5000, 'SSH-2.0-OpenSSH_' + '9' * 3000, 'SSH-2.0-OpenSSH_' + '1.' * 1500 + '1',
